@@ -95,6 +95,18 @@ def roundtrip_cases(tier, rng):
         ent.append('STR_TO_NUM(NUM_TO_STR(0 - %s)) = 0 - %s' % (v, v)); exp.append(('val', 'TRUE'))
     for v, f in [('2.7', 2), ('2.0', 2), ('-2.7', -3), ('-2.0', -2), ('0.999999', 0), ('-0.000001', -1), ('123456789.99', 123456789), ('-123456789.01', -123456790)]:
         ent.append('INT(%s)' % (v if not v.startswith('-') else '0 - ' + v[1:])); exp.append(('val', str(f)))
+    # INT far from zero: floors around 2^31, 2^32, 2^40 and up to 2^52 (x.5 and x.25 are exact there)
+    import math
+    bigs = []
+    for base in [2**31, 2**32, 3 * 10**9, 2**40, 10**12, 2**51]:
+        for d in (-1, 0, 1):
+            for fr in (('0', '5', '25', '75') if base < 2**44 else ('0', '5')):      # only fractions a double holds exactly at that magnitude
+                bigs.append(('%d.%s' % (base + d, fr), base + d))
+    bigs += [('%d.%s' % (w, rng.choice(['0', '5', '125'])), w) for w in [rng.randint(2**31, 2**44) for _ in range(20 if tier == 'quick' else 400)]]
+    for txt, w in bigs:
+        ent.append('INT(%s)' % txt); exp.append(('val', str(w)))
+        neg_floor = -w if txt.endswith('.0') else -w - 1
+        ent.append('INT(0 - %s)' % txt); exp.append(('val', str(neg_floor)))
     for x in [1, 2, 10, 1000, 2147483647, 9223372036854775807]:
         n = 40 if tier == 'quick' else 400
         ent.append('ok <- TRUE'); exp.append(('none',))
